@@ -45,14 +45,15 @@ type Fault struct {
 
 // TreeScript describes one run of the tree world.
 type TreeScript struct {
-	Prop     string  `json:"prop"`
-	Scribble bool    `json:"scribble,omitempty"` // the harness edits every value a lookup returned, after judging it
-	Store    string  `json:"store"`              // mem | lvlmem | lvlp | p | lvlpp
-	Cache    string  `json:"cache"`              // own | shared
-	Observe  string  `json:"observe,omitempty"`  // "" = harness reads through the trie under test; "fresh" = through throw-away trie objects
-	Ver      int64   `json:"ver"`
-	Faults   []Fault `json:"faults,omitempty"`
-	Ops      []Op    `json:"ops"`
+	Prop       string  `json:"prop"`
+	CountJudge bool    `json:"count_judge,omitempty"` // C16: tasks use Insert/Delete/lookups/GetChangeCount only and the counts are judged
+	Scribble   bool    `json:"scribble,omitempty"`    // the harness edits every value a lookup returned, after judging it
+	Store      string  `json:"store"`                 // mem | lvlmem | lvlp | p | lvlpp
+	Cache      string  `json:"cache"`                 // own | shared
+	Observe    string  `json:"observe,omitempty"`     // "" = harness reads through the trie under test; "fresh" = through throw-away trie objects
+	Ver        int64   `json:"ver"`
+	Faults     []Fault `json:"faults,omitempty"`
+	Ops        []Op    `json:"ops"`
 	// C16: tasks and schedule
 	Tasks     [][]Op `json:"tasks,omitempty"`
 	Schedule  []int  `json:"schedule,omitempty"`
